@@ -42,6 +42,9 @@ fixed('C10', 'centroid_1dg', "centroid_1dg/centroid_2dg: `data.mask |= mask` / `
 fixed('C10', 'StarFinder no longer', "StarFinder: `kernel /= np.max(kernel)` modified the caller's kernel; _StarFinderCatalog.cutout_data zeroed negative pixels through views of the caller's image")
 fixed('C10', 'grid_from_epsfs', "grid_from_epsfs(meta=d) added grid_xypos/oversampling/fill_value to the caller's dict")
 fixed('C10', 'extract_stars', "extract_stars: with a float 'weights' uncertainty and a mask, masked pixels were zeroed in the caller's uncertainty array")
+# ---- C08
+fixed('C08', 'no longer shares its extra', "SourceCatalog.__getitem__ copied _extra_properties by reference: child.add_extra_property('foo', ...) made parent.to_table() fail")
+fixed('C08', 'scalar SourceCatalog', "cat[i].centroid_quad raised IndexError when the quadratic fit is NaN (fallback indexed a (2,) array); cat[0].fluxfrac_radius(0.5) raised TypeError with a large kron_params[2]")
 # ---- C09
 known('C09', 'ECALL|photutils.isophote.ellipse.Ellipse.fit_image|self._geometry.linear_growth = linear',
       "Ellipse.fit_image(linear=True) persists: a later fit_image() on the same object grows linearly although its own linear argument is the default; " + GEOM,
